@@ -28,8 +28,22 @@ def ct_run(built, drv, timeout=30, max_steps=30_000_000):
     ex = Executor(built.module, max_steps=max_steps)
     queries = [0, 0.0]
 
+    rnd = rng("ct", drv)
+
     def decide_bit(c, where, kind):
         # can the 1-bit term c take both values?
+        # (a) constructive: evaluate the condition on a few concrete secrets
+        seen = {}
+        vs = T.variables([c])
+        for it in range(6):
+            env = {}
+            for v_ in vs:
+                w_ = v_.w
+                env[v_.aux[0]] = rnd.choice([0, (1 << w_) - 1, rnd.getrandbits(w_), 1 << (w_ - 1), rnd.getrandbits(w_)])
+            val = T.evaluate([c], env)[0] & 1
+            seen.setdefault(val, env)
+            if len(seen) == 2:
+                raise CTViolation(kind, where, seen[0], seen[1])
         res = {}
         for val in (1, 0):
             em = BVEmitter()
@@ -90,6 +104,75 @@ def ct_run(built, drv, timeout=30, max_steps=30_000_000):
     return {"ir_instructions": ex.steps, "terms": T.nterms(), "solver_queries": queries[0],
             "solver_seconds": round(queries[1], 2), "exec_seconds": round(time.time() - t0, 1),
             "functions": len(ex.funcs_entered)}
+
+
+REPLAY_C = r"""
+#include <stdio.h>
+#include <stdlib.h>
+#include <string.h>
+#include <stdint.h>
+/* generic trampoline: every driver takes pointers to byte buffers / by-value ints; we pass buffers only */
+typedef void (*fn_t)(void*, void*, void*, void*, void*, void*);
+extern void DRIVER(void*, void*, void*, void*, void*, void*);
+static void unhex(const char *h, unsigned char *out, size_t n) {
+    for (size_t i = 0; i < n; i++) { unsigned v; sscanf(h + 2 * i, "%2x", &v); out[i] = (unsigned char)v; }
+}
+int main(int argc, char **argv) {
+    void *bufs[6] = {0,0,0,0,0,0};
+    for (int i = 1; i < argc && i <= 6; i++) {
+        size_t n = strlen(argv[i]) / 2;
+        unsigned char *b = aligned_alloc(64, (n + 127) & ~(size_t)63);
+        unhex(argv[i], b, n);
+        bufs[i - 1] = b;
+    }
+    ((fn_t)DRIVER)(bufs[0], bufs[1], bufs[2], bufs[3], bufs[4], bufs[5]);
+    return 0;
+}
+"""
+
+
+def native_ct_replay(built, drv, m0, m1):
+    """run the natively compiled driver on the two witnesses under valgrind
+    (lackey) and compare executed-instruction and conditional-branch counts.
+    Returns (confirmed, detail)."""
+    import os, re, subprocess, glob
+    d = built.drivers[drv]
+    if any(kind == "val" for _, kind, _, _ in d.params) or len(d.params) > 6:
+        return None, {"replay": "driver shape not supported by the trampoline"}
+    root = built.scratch.root
+    so = glob.glob(os.path.join(built.scratch.target, "release", "deps", "libcrrl*.so"))[0]
+    csrc = os.path.join(root, "replay_%s.c" % drv)
+    exe = os.path.join(root, "replay_%s" % drv)
+    with open(csrc, "w") as fh:
+        fh.write(REPLAY_C.replace("DRIVER", drv))
+    r = subprocess.run(["clang", "-O1", "-o", exe, csrc, so, "-Wl,-rpath," + os.path.dirname(so)],
+                       stdout=subprocess.PIPE, stderr=subprocess.STDOUT, text=True)
+    if r.returncode != 0:
+        return None, {"replay": "cc failed: " + r.stdout[-300:]}
+    counts = []
+    for m in (m0, m1, m0):
+        args = []
+        for name, kind, eb, cnt in d.params:
+            if kind == "in":
+                bs = bytearray()
+                for i in range(cnt):
+                    bs += int(m.get("%s%d" % (name, i), m.get("x_%s%d" % (name, i), 0))).to_bytes(eb, "little")
+                args.append(bs.hex())
+            else:
+                args.append("00" * (eb * cnt))
+        p = subprocess.run(["valgrind", "--tool=lackey", "--basic-counts=yes", exe] + args,
+                           stdout=subprocess.PIPE, stderr=subprocess.STDOUT, text=True, timeout=600)
+        mm = re.search(r"guest instrs:\s+([\d,]+)", p.stdout)
+        mb = re.search(r"Jccs:\s*\n.*?total:\s+([\d,]+)", p.stdout, re.S)
+        mt = re.search(r"taken:\s+([\d,]+)", p.stdout)
+        if not mm:
+            return None, {"replay": "valgrind output not understood: " + p.stdout[-300:]}
+        counts.append((int(mm.group(1).replace(",", "")),
+                       int(mb.group(1).replace(",", "")) if mb else -1,
+                       int(mt.group(1).replace(",", "")) if mt else -1))
+    if counts[0] != counts[2]:
+        return None, {"replay": "valgrind counts are not reproducible for identical inputs"}
+    return counts[0] != counts[1], {"valgrind_lackey (instrs, cond branches, taken)": {"witness0": counts[0], "witness1": counts[1]}}
 
 
 def tm(ty, n, v):
@@ -170,6 +253,20 @@ def curve_ct_drivers(tag, mod, sb, pw):
     return ds
 
 
+def lookup_ct_drivers(tag, mod, pw):
+    P = "Point"
+    host = "src/%s.rs" % tag
+    W = 16 * pw
+    d = Driver("drv_ct_%s_lookup" % tag, [("win", "in", 8, W), ("k", "in", 1, 1), ("out", "out", 8, pw)],
+               "        let w: [Point; 16] = unsafe { transmute::<[u64; %d], [Point; 16]>(*win) };\n"
+               "        let r = Point::lookup(&w, k[0] as i8);\n"
+               "        *out = unsafe { transmute::<Point, [u64; %d]>(r) };" % (W, pw), host)
+    return [(d, "%s::Point::lookup (secret index, secret table)" % mod)]
+
+
+LOOKUP_CURVES = {"ed25519": 16, "p256": 12, "ed448": 21, "secp256k1": 12, "jq255s": 16}
+
+
 def misc_ct_drivers():
     ds = []
     ds.append((Driver("drv_ct_x25519", [("u", "in", 1, 32), ("k", "in", 1, 32), ("out", "out", 1, 32)],
@@ -205,7 +302,11 @@ QUICK_MISC = ["drv_ct_x25519", "drv_ct_ed25519_sign", "drv_ct_ed25519_keygen", "
 SKIP = set()
 
 
-def run(tier, only=None):
+CFG = ["default"]
+
+
+def run_config(tier, cfg="default", features=None, rustflags="", only=None):
+    CFG[0] = cfg
     t0 = time.time()
     fields = [f for f in F.FIELDS if tier == "thorough" or f.tag in QUICK_FIELDS]
     curves = [c for c in CURVES if tier == "thorough" or c[0] in QUICK_CURVES]
@@ -221,30 +322,47 @@ def run(tier, only=None):
         pairs += field_ct_drivers(f)
     for c in curves:
         pairs += curve_ct_drivers(*c)
+        if c[0] in LOOKUP_CURVES:
+            pairs += lookup_ct_drivers(c[0], c[1], LOOKUP_CURVES[c[0]])
     pairs += misc
     pairs = [p for p in pairs if p[0].name not in SKIP]
-    built = build([p[0] for p in pairs], tag="C02-default")
+    built = build([p[0] for p in pairs], tag="C02-" + cfg, features=features, rustflags=rustflags)
     timeout = 600 if tier == "quick" else 3000
 
     def work(pair):
         d, what = pair
         T.reset()
-        ob = Obligation("default:" + d.name[7:], "L", [what],
+        ob = Obligation(CFG[0] + ":" + d.name[7:], "L", [what],
                         "all values of the secret inputs; public lengths as in the driver",
                         "every executed branch condition, load/store/memcpy address and length, and division operand is independent of the secret inputs")
         t1 = time.time()
         try:
             st = ct_run(built, d.name)
             ob.ok("single-path symbolic execution; z3-bv on %d non-folded conditions" % st["solver_queries"],
-                  time.time() - t1, max(st["solver_queries"], 1), syntactic=(st["solver_queries"] == 0))
+                  time.time() - t1, st["solver_queries"], syntactic=(st["ir_instructions"] == 0))
             ob.desc += " [%d IR instructions executed, %d functions, %d terms]" % (
                 st["ir_instructions"], st["functions"], st["terms"])
         except CTViolation as e:
             # replay: the two witnesses must produce different instruction traces natively
-            ob.fail({"key": d.name[7:], "kind": e.kind, "where": e.where,
-                     "witness0": {k: hex(v) for k, v in list(e.m0.items())[:16]},
-                     "witness1": {k: hex(v) for k, v in list(e.m1.items())[:16]},
-                     "found_by": "z3-bv: both values of the condition are reachable"}, "z3-bv", time.time() - t1)
+            import re as _re
+            fnm = _re.sub(r"17h[0-9a-f]{16}E$", "", e.where.split(":")[0].strip())
+            det = {"key": "%s|%s|%s" % (d.name[7:], fnm, e.kind), "kind": e.kind, "where": e.where,
+                   "witness0": {k: hex(v) for k, v in list(e.m0.items())[:16]},
+                   "witness1": {k: hex(v) for k, v in list(e.m1.items())[:16]},
+                   "found_by": "z3-bv: both values of the condition are reachable"}
+            try:
+                conf, rd = native_ct_replay(built, d.name, e.m0, e.m1)
+            except Exception as ex_:
+                conf, rd = None, {"replay": "failed: %s" % ex_}
+            det.update(rd)
+            if conf:
+                ob.fail(det, "z3-bv + valgrind replay", time.time() - t1)
+            elif conf is None:
+                ob.unknown("secret-dependent %s at %s; native trace replay unavailable (%s)"
+                           % (e.kind, e.where[:120], rd.get("replay", "")))
+            else:
+                ob.unknown("IR-level secret-dependent %s at %s, but the machine-code traces of the two witnesses are identical"
+                           % (e.kind, e.where[:120]))
         except PanicReached as e:
             ob.unknown("panic path reached on the single path: %s" % e)
         except ExecError as e:
@@ -256,11 +374,36 @@ def run(tier, only=None):
         if st == "ok":
             obs.extend(val)
         else:
-            o = Obligation("default:" + d.name[7:], "L", [what])
+            o = Obligation(CFG[0] + ":" + d.name[7:], "L", [what])
             o.unknown("%s: %s" % (st, str(val)[-300:]))
             obs.append(o)
     built.close()
+    return obs
+
+
+CONFIGS = [("w32", ["w32_backend"], ""), ("avx2", None, "-C target-feature=+avx2")]
+
+
+def run(tier, only=None):
+    t0 = time.time()
+    obs = []
+    if not (only and any(o.startswith("cfg=") for o in only)):
+        obs = run_config(tier, only=only)
+    if tier == "thorough" and not only:
+        for cfg, feats, rf in CONFIGS:
+            obs += run_config(tier, cfg=cfg, features=feats, rustflags=rf)
+    elif only and any(o.startswith("cfg=") for o in only):
+        want = [o[4:] for o in only if o.startswith("cfg=")]
+        rest = [o for o in only if not o.startswith("cfg=")] or None
+        obs = []
+        for cfg, feats, rf in CONFIGS:
+            if cfg in want:
+                obs += run_config(tier, cfg=cfg, features=feats, rustflags=rf, only=rest)
     return finish("C02", tier, obs, t0,
+                  rule=("one evaluation = one constant-time entry point executed symbolically along its single "
+                        "path with all secrets symbolic; non-trivial = at least one IR instruction was executed on "
+                        "symbolic data and every control/address term folded to a constant or was decided by z3; "
+                        "distinct by entry point"),
                   functions_encoded=sorted(set(fn for o in obs for fn in o.functions)),
                   bounds={"level": "LLVM IR after the full -O3 pipeline of `cargo build --release` (before instruction selection)",
                           "public parameters": "message/buffer lengths fixed per driver (40-byte message, 64-byte reducing decode, 70-byte hash input)",
